@@ -396,9 +396,22 @@ class CombinedAnalysis(Analysis):
         -------
         An overarching analysis
         """
+        from .free_parameter import FreeParameterAnalysis
+
+        if isinstance(other, FreeParameterAnalysis) and not isinstance(
+            self, FreeParameterAnalysis
+        ):
+            # the free parameters declared for the right operand are kept
+            return other._with_analyses(*self.analyses, *other.analyses)
         if isinstance(other, CombinedAnalysis):
-            return type(self)(*self.analyses, *other.analyses)
-        return type(self)(*self.analyses, other)
+            return self._with_analyses(*self.analyses, *other.analyses)
+        return self._with_analyses(*self.analyses, other)
+
+    def _with_analyses(self, *analyses: Analysis):
+        """
+        A combined analysis of the same kind as this one for some analyses
+        """
+        return type(self)(*analyses)
 
     def with_free_parameters(
         self, *free_parameters: Union[Prior, TuplePrior, AbstractPriorModel]
